@@ -28,6 +28,14 @@ type memClient struct {
 	noTeardown bool
 	// transport-level recorder for Watch streams (C13): dial outcome, every message handed to the client, stream end
 	watchRec func(call int, what string, msg *v1alpha1.WatchResponse, err error)
+	// wire-level recorder for Create / Update / Destroy (C11): the options in the request, the status code of the answer
+	unaryRec func(rpc string, owner string, expectedPhase *string, code codes.Code)
+}
+
+func (c *memClient) recUnary(rpc, owner string, exp *string, err error) {
+	if c.unaryRec != nil {
+		c.unaryRec(rpc, owner, exp, status.Code(err))
+	}
 }
 
 type vtMsg interface {
@@ -97,6 +105,8 @@ func (c *memClient) Create(ctx context.Context, in *v1alpha1.CreateRequest, _ ..
 	}
 
 	resp, err := guardUnary("Create", func() (*v1alpha1.CreateResponse, error) { return c.srv.Create(ctx, req) })
+	c.recUnary("RCreate", req.GetOptions().GetOwner(), nil, toStatus(err))
+
 	if err != nil {
 		return nil, toStatus(err)
 	}
@@ -111,6 +121,14 @@ func (c *memClient) Update(ctx context.Context, in *v1alpha1.UpdateRequest, _ ..
 	}
 
 	resp, err := guardUnary("Update", func() (*v1alpha1.UpdateResponse, error) { return c.srv.Update(ctx, req) })
+
+	var exp *string
+	if req.GetOptions() != nil {
+		exp = req.GetOptions().ExpectedPhase
+	}
+
+	c.recUnary("RUpdate", req.GetOptions().GetOwner(), exp, toStatus(err))
+
 	if err != nil {
 		return nil, toStatus(err)
 	}
@@ -125,6 +143,8 @@ func (c *memClient) Destroy(ctx context.Context, in *v1alpha1.DestroyRequest, _ 
 	}
 
 	resp, err := guardUnary("Destroy", func() (*v1alpha1.DestroyResponse, error) { return c.srv.Destroy(ctx, req) })
+	c.recUnary("RDestroy", req.GetOptions().GetOwner(), nil, toStatus(err))
+
 	if err != nil {
 		return nil, toStatus(err)
 	}
